@@ -270,11 +270,9 @@ def make_case(rng):
             bk = {}
         if bk:
             bk.pop('min_burst_duration', None)
-    fek = None if rng.random() < 0.3 else {'filter_kwargs': ({'n_cycles': int(rng.choice([2, 3, 5]))} if rng.random() < 0.7 else
-                                                             {'n_seconds': float(rng.choice([2, 3, 4])) / lo}),
-                                           'boundary': int(rng.choice([0, 0, 4]))}
-    if fek is not None and rng.random() < 0.3:
-        fek['pad'] = bool(rng.random() < 0.5)
+    fek = gen.gen_find_extrema_kwargs(rng, fs, lo)       # None, {}, dicts with / without 'filter_kwargs' (n_cycles | n_seconds), boundary, pad
+    if fek is not None and 'boundary' in fek and fek['boundary'] > 10:
+        fek['boundary'] = 4
     rows = np.array([np.roll(sig, 7 * i) + 1e-3 * i for i in range(4)])
     return {'sig': sig, 'fs': fs, 'f_range': (lo, hi), 'thr': thr, 'bk': bk, 'fek': fek, 'center': str(rng.choice(['peak', 'trough'])),
             'method': method, 'sigs2': rows[:int(rng.integers(2, 4))], 'sigs3': rows.reshape(2, 2, -1),
